@@ -87,6 +87,12 @@ class C11(core.Check):
             ("srv", True, [("conn", 1, [], [], []), ("svc",), ("conn", 1, [], [], [("ok",)]), ("svc",), ("close",)]),
             ("srv", True, [("conn", 1, [], [], [("ok",)]), ("svc",), ("conn", 1, [], [], [("f", W), ("ok",)]), ("svc",), ("svc",), ("close",)]),
             ("srv", True, [("conn", 1, [], [], [("f", errno.ECONNRESET)]), ("conn", 2, [], [("f", errno.EBADF)], [("ok",)]), ("svc",), ("rm", 2), ("reopen",), ("conn", 2, [], [], []), ("svc",), ("close",)]),
+            # the listen socket cannot be had (address in use / no permission): open() fails, possibly several times, then close
+            ("srv", False, [("reopenf", "bind", errno.EADDRINUSE), ("close",)]),
+            ("srv", True, [("conn", 1, [], [], []), ("svc",), ("reopenf", "bind", errno.EADDRINUSE), ("reopenf", "listen", errno.EACCES), ("reopen",), ("conn", 2, [], [], [("ok",)]), ("svc",), ("close",)]),
+            ("srv", False, [("reopenf", "listen", errno.EADDRINUSE), ("reopenf", "bind", errno.EADDRNOTAVAIL), ("svc",), ("close",)], "doer"),
+            ("real", False, [("peer", 1), ("svc",), ("clash",), ("close",), ("clash",)]),
+            ("real", True, [("clash",), ("peer", 1), ("svc",), ("close",)]),
             # graceful EOF / reset seen by the server on some connections, then close
             ("srv", False, [("conn", 1, [], [("d", b"a"), ("d", b"")], []), ("conn", 2, [], [("f", errno.ECONNRESET)], []), ("conn", 3, [("f", errno.EPIPE)], [], []),
                             ("svc",), ("tx", 3, b"x"), ("svc",), ("close",)]),
@@ -144,8 +150,10 @@ class C11(core.Check):
                     ops.append(("svc",))
                 elif r < 0.85:
                     ops.append(("drop", rng.randrange(1, 4)))
-                elif r < 0.93:
+                elif r < 0.9:
                     ops.append(("close",))
+                elif r < 0.95:
+                    ops.append(("clash",))
                 else:
                     ops.append(("reopen",))
             yield ("real", rng.random() < 0.5, ops)
@@ -258,7 +266,7 @@ class C11(core.Check):
         cops = _cli_parts(case)[3]
         if case[0] == "clix" and case[5] == "ctx":
             cops = [("reopen",)] + list(cops) + [("close",)]
-        for op, (st, open_ids, cur, connected, cutoff, nrx, ntx) in zip(cops, obs):
+        for op, (st, open_ids, cur, connected, cutoff, nrx, ntx, allacc, txbs) in zip(cops, obs):
             extra = [i for i in open_ids if i != cur]
             if extra:
                 bad.append("client-earlier-socket-open")
@@ -307,7 +315,7 @@ class C11(core.Check):
             cas = [o[1] for o in ops if o[0] == "conn"]
             if len(cas) != len(set(cas)):
                 f.append("same-address-reconnect")
-            for k in ("rm", "reopen"):
+            for k in ("rm", "reopen", "reopenf"):
                 if any(o[0] == k for o in ops):
                     f.append("op:" + k)
             if sum(1 for o in ops if o[0] == "close") > 1:
